@@ -384,6 +384,9 @@ def _sub_of(rng, t):
 def _formal(rng, t, intent, bg, bo, bo_kind, closed, named=None, backend=None, call=None, tkind=''):
     h, w = len(t), len(t[0])
     named = (rng.random() < 0.3) if named is None else named
+    if bo_kind == 'unsorted':
+        named = False
+        call = rng.choice([0, 0, 2]) if call is None else call
     c = {'kind': 'formal', 'backend': backend or rng.choice(BACKENDS), 'table': t, 'named': named,
          'onames': list(range(h)), 'anames': list(range(w)), 'intent': list(intent),
          'base_gen': None if bg is None else list(bg), 'base_objs': None if bo is None else list(bo),
@@ -452,6 +455,40 @@ def formal_cases(rng, t, tkind, per_table):
             if rng.random() < 0.5:
                 rng.shuffle(dup)
             bos.append((dup, 'duplicates'))
+        # UNSORTED listings: a contiguous index range whose first entry is its minimum and last entry its maximum
+        # with the middle shuffled ([0, 2, 1, 3]); a listing with last - first + 1 == len that is not a range
+        # ([1, 0, 2, 3, 5]); and unsorted listings with first < last generally.  By index only (the by-name path
+        # re-sorts), never as a frozenset.
+        uns = []
+        if h >= 4:
+            a = rng.randint(0, h - 4)
+            b_ = rng.randint(a + 3, h - 1)
+            mid = list(range(a + 1, b_))
+            while mid == sorted(mid):
+                rng.shuffle(mid)
+            uns.append([a] + mid + [b_])
+        if h >= 5:
+            a = rng.randint(1, h - 4)
+            rest = [g for g in range(h) if g not in (a, a - 1)]
+            k = rng.randint(2, min(4, len(rest) - 1))
+            tail = sorted(rng.sample(rest, k))
+            # first = a, then a - 1, ... , last = a + len - 1 if available
+            lst = [a, a - 1] + tail
+            if a + len(lst) - 1 < h:
+                lst = [g for g in lst if g != a + len(lst) - 1] + [a + len(lst) - 1]
+                lst = lst[:1] + [g for g in lst[1:-1]] + lst[-1:]
+            uns.append(lst)
+        if h >= 3:
+            lst = rng.sample(allobjs, rng.randint(3, h))
+            if lst[0] > lst[-1]:
+                lst = lst[::-1]
+            if lst == sorted(lst):
+                lst[0], lst[1] = lst[1], lst[0]
+                if lst[0] > lst[-1]:
+                    lst = lst[::-1]
+            uns.append(lst)
+        for lst in uns:
+            bos.append((lst, 'unsorted'))
         for bg in bgs:
             for bo, bk in bos:
                 combos.append((B, bg, bo, bk, True))
@@ -460,7 +497,11 @@ def formal_cases(rng, t, tkind, per_table):
         B = gen.random_subset(rng, w)
         combos.append((sorted(B), rng.choice([None, []]), allobjs, 'all', tuple(sorted(B)) in cis))
     if len(combos) > per_table:
-        combos = rng.sample(combos, per_table)
+        # a dedicated share for the unsorted base listings, the rest sampled
+        u = [c for c in combos if c[3] == 'unsorted']
+        o = [c for c in combos if c[3] != 'unsorted']
+        ku = min(len(u), max(per_table // 5, 1))
+        combos = rng.sample(u, ku) + rng.sample(o, min(len(o), per_table - ku))
     return [_formal(rng, t, B, bg, bo, bk, closed, tkind=tkind) for B, bg, bo, bk, closed in combos]
 
 
